@@ -497,11 +497,11 @@ def _check_calls(refs, cfg, unit, T_fit, ctx, sig, case):
     key = [k for k in held if k.endswith('H')][0]
     held[key] += 1
     held['Xx'] = 3
-    d3 = spw.get_GoRT(**kw) - sp0.get_GoRT(**kw)
+    d3 = np.array([spw.get_HoRT(**kw) - sp0.get_HoRT(**kw), spw.get_GoRT(**kw) - sp0.get_GoRT(**kw)])
     ok &= ctx.close('composition edited in place between two calls: answer for its new content',
-                    d3 * T2 / T_fit, lin + unit['H'] + 3 * unit['Xx'], s, case, rtol=1e-9,
+                    d3 * T2 / T_fit, [lin + unit['H'] + 3 * unit['Xx']] * 2, s, case, rtol=1e-9,
                     scale=(mag + abs(unit['H'])) * T2 / T_fit + 0.6)
-    ctx.evals(16)
+    ctx.evals(18)
     ctx.tag('call:repeat')
     ctx.tag('call:edited-in-place')
     return bool(ok)
@@ -614,8 +614,10 @@ def _run_pair(case, ctx):
     from pmutt.empirical.references import Reference, References
     sig = _pair_sig(case)
     a_ids, make, edit = case['a'], case['make'], case['edit']
-    cfgA = dict(exp='table', tref='equal', desc='groups' if (make == 'deepcopy' and len(a_ids) % 2) else 'elements')
-    trefsA = [T0] * len(a_ids)
+    cfgA = dict(exp='table', tref='equal' if len(a_ids) == 2 else 'all300',
+                desc='groups' if (make == 'deepcopy' and len(a_ids) % 2) else 'elements')
+    tA = _tref_of(0, cfgA['tref'])
+    trefsA = [tA] * len(a_ids)
     lstA = [_reference(i, t, cfgA['exp'], cfgA['desc']) for i, t in zip(a_ids, trefsA)]
     lst_before = list(lstA)
     A = References(references=lstA, descriptor=cfgA['desc'])
@@ -634,7 +636,7 @@ def _run_pair(case, ctx):
         B = References(offset=None, references=lstB, descriptor='elements', T_ref=777.0)
     else:
         cfgB = dict(cfgA)
-        trefsB = [T0] * len(b_ids)
+        trefsB = [tA] * len(b_ids)
         if make == 'deepcopy':
             B = copy.deepcopy(A)
         else:
@@ -646,7 +648,7 @@ def _run_pair(case, ctx):
         ctx.close('a copy reports the offsets and T_ref of the original', _measure_offsets(B, T, cfgB['desc'])
                   + [float(B.T_ref)], a0 + [tr0], sig, case, rtol=0.0, atol=0.0)
         if edit[0] == 'append':
-            B.append(_reference(edit[1], T0, cfgB['exp'], cfgB['desc']))
+            B.append(_reference(edit[1], tA, cfgB['exp'], cfgB['desc']))
         else:
             B.pop()
         B.fit_HoRT_offset()
